@@ -213,8 +213,85 @@ def closures_on_stateful_receivers(ctx, rule="C24.R11"):
     rep.note(f"{rule}: stateful query names: {', '.join(sorted(stateful))}; {n} construction-time closures over constructor arguments")
 
 
+def gap_reads_no_restart_state(ctx, rule="C24.R12"):
+    """"Contact data keep their original meaning": the normal gap g_N (and its rates / derivatives) DEFINES the contact surface.  Whatever
+    `assembler_callback` derives from the initial state (`subsystem.q0`, `u0`, `t0`) is re-derived from the restart state by
+    set_new_initial_state; the gap routines read none of it (an offset `g_N0 = min(g_N(t0, q0), 0)` subtracted in g_N moves the plane of a
+    copy restarted from a slightly penetrating time-stepping state).  Tangent gauges (reference_contact_basis) are not read by the gap."""
+    rep = ctx.rep
+    n = 0
+    for cname in ("Sphere2Plane", "Sphere2Sphere"):
+        ci = ctx.model.cls(cname)
+        cnode = ci.node
+        fns = {f.name: f for f in cnode.body if isinstance(f, ast.FunctionDef)}
+        ac = fns.get("assembler_callback")
+        if ac is None:
+            raise AnalysisError(f"{rule}: {cname}.assembler_callback vanished")
+        tainted_loc, tainted_attr = set(), {}
+        def is_t(e):
+            for w in ast.walk(e):
+                if isinstance(w, ast.Lambda):
+                    continue
+                if isinstance(w, ast.Attribute) and w.attr in ("q0", "u0", "t0"):
+                    return True
+                if isinstance(w, ast.Name) and w.id in tainted_loc:
+                    return True
+                if isinstance(w, ast.Attribute) and isinstance(w.value, ast.Name) and w.value.id == "self" and w.attr in tainted_attr:
+                    return True
+            return False
+        for _ in range(3):
+            for st in ast.walk(ac):
+                if isinstance(st, (ast.Assign, ast.AugAssign)) and not isinstance(st.value, ast.Lambda) and is_t(st.value):
+                    for t in (st.targets if isinstance(st, ast.Assign) else [st.target]):
+                        for tt in (t.elts if isinstance(t, (ast.Tuple, ast.List)) else [t]):
+                            b = tt
+                            while isinstance(b, ast.Subscript):
+                                b = b.value
+                            if isinstance(b, ast.Name):
+                                tainted_loc.add(b.id)
+                            elif isinstance(b, ast.Attribute) and isinstance(b.value, ast.Name) and b.value.id == "self":
+                                tainted_attr.setdefault(b.attr, st)
+        lambdas = {}
+        for f in fns.values():
+            for st in ast.walk(f):
+                if isinstance(st, ast.Assign) and isinstance(st.value, ast.Lambda):
+                    for t in st.targets:
+                        if isinstance(t, ast.Attribute) and isinstance(t.value, ast.Name) and t.value.id == "self":
+                            lambdas.setdefault(t.attr, []).append(st.value.body)
+        gaps = sorted(k for k in fns if k.startswith("g_N"))
+        if not gaps:
+            raise AnalysisError(f"{rule}: {cname} has no g_N routines")
+        for g in gaps:
+            seen, todo, via = set(), [(fns[g], g)], {}
+            while todo:
+                body, path = todo.pop()
+                for w in ast.walk(body):
+                    if isinstance(w, ast.Attribute) and isinstance(w.value, ast.Name) and w.value.id == "self" and w.attr not in seen:
+                        seen.add(w.attr)
+                        via[w.attr] = path
+                        if w.attr in lambdas:
+                            todo += [(b, f"{path} -> self.{w.attr}") for b in lambdas[w.attr]]
+                        elif w.attr in fns and w.attr != "assembler_callback":
+                            todo.append((fns[w.attr], f"{path} -> self.{w.attr}"))
+            n += 1
+            C = f"{ci.rel}:{cname}.{g}"
+            hit = sorted(seen & set(tainted_attr))
+            if hit:
+                a = hit[0]
+                st = tainted_attr[a]
+                rep.bad(rule, C, st, f"the gap routine reads `self.{a}` (via {via[a]}), which assembler_callback derives from the initial state (`{norm_src(st)[:70]}`): "
+                        "set_new_initial_state re-assembles, so a copy restarted from a stored state re-derives it from THAT state and its contact surface is not the original one",
+                        f"{ci.rel}:{st.lineno}")
+            else:
+                rep.ok(rule, C, f"reads {len(seen)} attributes of the contact, none derived from q0 / u0 / t0 at assembly (state-derived: {sorted(tainted_attr) or 'none'})")
+    if n < 4:
+        raise AnalysisError(f"{rule}: only {n} gap routines found in the contacts")
+
+
 def run(ctx):
     rep = ctx.rep
+    rep.rule("C24.R12", "the normal-gap routines of the contacts (g_N, its rates and derivatives: the contact surface) read nothing that assembler_callback derives from the initial state q0 / u0 / t0", 4)
+    gap_reads_no_restart_state(ctx)
     rep.rule("C24.R10", "re-assembly starts from scratch: every attribute System.assemble accumulates into is bound in assemble itself first (set_new_initial_state re-assembles; an accumulator from __init__ doubles the contact / friction data of the re-initialised copy)", 8)
     from .c14 import assemble_accumulators_reset
     assemble_accumulators_reset(ctx, "C24.R10")
@@ -476,4 +553,17 @@ MUTANTS += [
 NEUTRAL += [
     dict(id="c24-n-r11", canary=True, what="ScalarForceLawBase binds l as a lambda over self.subsystem (attribute lookup at call time: deepcopy-safe)", file='cardillo/force_laws/_base.py',
          old="        self.l = self.subsystem.l\n", new="        self.l = lambda t, q: self.subsystem.l(t, q)\n"),
+]
+
+S2P24 = "cardillo/contacts/sphere2plane.py"
+MUTANTS += [
+    dict(id="c24-r12-seed", canary=True, what="[seeded by sub-agent] Sphere2Plane measures its gap from the penetration depth of the (re-)assembly state", 
+         edits=[(S2P24, "    ################\n    # normal contact\n    ################\n    def g_N(self, t, q):\n        return np.array([self.n(t) @ (self.r_OP(t, q) - self.r_OQ(t))]) - self.r\n",
+                 "    ################\n    # normal contact\n    ################\n    def g_N(self, t, q):\n        return np.array([self.n(t) @ (self.r_OP(t, q) - self.r_OQ(t))]) - self.r - self.g_N0\n"),
+                (S2P24, "    ################\n    # normal contact\n    ################\n    def g_N(self, t, q):\n", "        g_N0 = self.n(self.t0) @ (self.r_OP(self.t0, self.subsystem.q0[qDOF]) - self.r_OQ(self.t0))\n        self.g_N0 = min(g_N0 - self.r, 0.0)\n\n    ################\n    # normal contact\n    ################\n    def g_N(self, t, q):\n")],
+         expect="C24.R12"),
+]
+NEUTRAL += [
+    dict(id="c24-n-r12", canary=True, what="Sphere2Plane records the initial gap for diagnostics; the gap routines do not read it", file=S2P24,
+         old="    ################\n    # normal contact\n    ################\n    def g_N(self, t, q):\n", new="        self.g_N0_info = float(self.n(self.t0) @ (self.r_OP(self.t0, self.subsystem.q0[qDOF]) - self.r_OQ(self.t0)) - self.r)\n\n    ################\n    # normal contact\n    ################\n    def g_N(self, t, q):\n"),
 ]
